@@ -176,6 +176,10 @@ func (e *Eng) evalSpec(st *State, x *SExpr, env map[string]*Val, old map[string]
 				if a.Sort == "Slice" {
 					t = a.Elems[0].T
 				}
+				if a.Sort == "Iface" {
+					// an interface holding a pointer: the pointee is local
+					return scalar(fmt.Sprintf("(and ((_ is mkref) %s) (islocal (iref %s)))", a.T, a.T), "Bool", nil)
+				}
 				return scalar(fmt.Sprintf("(or (= %s 0) (islocal %s))", t, t), "Bool", nil)
 			case "implements":
 				a := e.evalSpec(st, x.Args[1], env, old)
